@@ -190,6 +190,29 @@ theorem C08_run_count_any_time {cfg : Config S} (hdt : 0 ≤ cfg.dt)
   rw [trace_countP, accepted_countP, executed_countP]
   omega
 
+/-- the run-level counting for every run of a *tolerant stepped driver* (`ReachableT`): after any number of
+    steps out of which a callback's exception escaped, `handle_packet(msg)` calls on `dst` are still exactly the
+    executed delivery events for `(dst, msg)`, every created delivery event is executed once or still queued,
+    and the created ones never exceed the accepted `send(msg, dst)` plus the others' accepted `broadcast(msg)` -/
+theorem C08_run_count_tolerant {cfg : Config S} (hdt : 0 ≤ cfg.dt)
+    {P : NodeId → Proto S σ} {w : World S σ} (h : ReachableT cfg P w) (dst : NodeId) (msg : String) :
+    handledTo w dst msg = execdTo w dst msg ∧
+    createdTo w dst msg = execdTo w dst msg + queuedTo w dst msg ∧
+    createdTo w dst msg ≤ accSendTo w dst msg + accBcastNotBy w dst msg := by
+  have h1 := reachableT_count (spec_handledTo σ cfg dst msg) h
+  have h2 := reachableT_count (spec_addr σ cfg dst msg) h
+  have h3 := winv_countP (reachableT_inv hdt h) (isDeliverTo dst msg)
+  simp only [mA_right, mT] at h1
+  simp only [mA_left, mT] at h2
+  refine ⟨?_, ?_, ?_⟩
+  · unfold handledTo execdTo
+    rw [trace_countP, executed_countP]; omega
+  · unfold createdTo execdTo queuedTo
+    rw [accepted_countP, executed_countP]; omega
+  · unfold createdTo accSendTo accBcastNotBy
+    rw [accepted_countP, trace_countP, trace_countP, ← isAddrAcc_count]
+    exact h2
+
 /-- "every `inRange` test made during the first `k` steps of the run succeeded": `RangeOkReq` holds in
     the world in which each `send` / `broadcast` request of the run is executed (`OkSteps` carries it
     through `step`, `execEv`, `callback`, `runProg`) -/
